@@ -118,6 +118,10 @@ func genC20(e *emitter, tier string, seed int64) {
 		{"lineprotocol", "cpu,host=h1,region=r usage=1.5,n=3i,ok=true,s=\"str\" 1600000000000000000"},
 		{"lineprotocol", "m2 message=\"abc 7\" 5"},
 		{"lineprotocol", "not line protocol"},
+		// no point at all; the first point not on the first physical line; a newline inside a string field
+		{"lineprotocol", ""}, {"lineprotocol", "# only a comment\n"},
+		{"lineprotocol", "# comment first\ncpu,host=h2 v=1i 7\nsecond v=2i 8"}, {"lineprotocol", "\ncpu v=1.5 9"},
+		{"lineprotocol", "cpu s=\"two\nlines\",v=1i 10\nsecond v=2i 11"},
 	}
 	N := 70
 	if tier == "thorough" {
@@ -184,6 +188,6 @@ func genC20(e *emitter, tier string, seed int64) {
 		e.stat("cli:" + map[bool]string{true: "single", false: "workspace"}[single] + ":" + outType)
 		e.emit(map[string]any{"k": "cli", "gen": "cli", "key": fmt.Sprintf("%v | %s %q | single=%v noinput=%v out=%s", names, in.typ, in.data, single, noInput, outType),
 			"files": set, "input": in.data, "type": in.typ, "out_type": outType, "single": single, "noinput": noInput,
-			"exit": exit, "printed": printed, "stdout_tail": tail(stdout, 600), "lib": want, "lib_err": werr})
+			"exit": exit, "crashed": strings.Contains(se.String(), "panic:") || strings.Contains(se.String(), "goroutine "), "stderr_tail": tail(se.String(), 400), "printed": printed, "stdout_tail": tail(stdout, 600), "lib": want, "lib_err": werr})
 	}
 }
